@@ -2,4 +2,5 @@ SPECIFICATION Spec
 INVARIANT NoSharedWrite
 INVARIANT ResultsSequential
 INVARIANT InfoInitOnce
+INVARIANT ViewRangeExact
 CHECK_DEADLOCK FALSE
